@@ -643,7 +643,10 @@ package mcp
 //@   ensures @delete-closes-exactly-the-addressed-session calls(lookup) == 1 && callResult(lookup, 1, 1) ==> calls(closeSession) == 1 && callArg(closeSession, 1, 0) == at(afterLookup, callResult(lookup, 1, 0).session)
 //@   ensures @refused-delete-has-no-effect calls(lookup) == 0 || !callResult(lookup, 1, 1) ==> calls(closeSession) == 0
 //@   ensures @missing-id-is-400 calls(lookup) == 0 ==> calls(reject) == 1 && callArg(reject, 1, 2) == 400
-//@ func (*StreamableHTTPHandler).serveStatefulGET [C11]
+//@ func (*StreamableHTTPHandler).serveStatefulGET [C11, C12]
+//@   track streamableAccepts as accepts
+//@   track http.Error as reject
+//@   ensures @get-must-accept-event-stream calls(accepts) == 1 && !callResult(accepts, 1, 1) ==> calls(reject) == 1 && callArg(reject, 1, 2) == 400 && calls(serve) == 0 && calls(lookup) == 0
 //@   track lookupSession as lookup
 //@   track (*StreamableServerTransport).ServeHTTP as serve
 //@   requires h != nil && req != nil
@@ -654,7 +657,12 @@ package mcp
 // POST on a stateful endpoint: a request that names a session reaches only that session, through lookupSession, is
 // counted as in flight for exactly the time it is being served (so the idle timer is paused), and never mints an id
 // or creates a session; ids are minted only for requests that carry none.
-//@ func (*StreamableHTTPHandler).serveStatefulPOST [C11]
+//@ func (*StreamableHTTPHandler).serveStatefulPOST [C11, C12]
+//@   track baseMediaType as media
+//@   track streamableAccepts as accepts
+//@   track http.Error as reject
+//@   ensures @post-body-must-be-json disablecontenttypecheck != "1" && calls(media) == 1 && callResult(media, 1, 0) != "application/json" ==> calls(reject) == 1 && callArg(reject, 1, 2) == 415 && calls(serve) == 0 && calls(connect) == 0 && calls(lookup) == 0
+//@   ensures @accept-must-admit-both-response-types calls(accepts) == 1 && !(callResult(accepts, 1, 0) && callResult(accepts, 1, 1)) ==> calls(reject) == 1 && callArg(reject, 1, 2) == 400 && calls(serve) == 0 && calls(connect) == 0 && calls(lookup) == 0
 //@   track lookupSession as lookup
 //@   track connectStreamable as connect
 //@   track (*sessionInfo).startPOST as start
@@ -682,7 +690,11 @@ package mcp
 // GET and DELETE included, is answered 405 and reaches no session - no session id is read from the request or
 // minted, and the temporary session of a served POST is closed when the request ends. (That the session table is
 // not touched is part of the lock-discipline obligation of the table's monitor: serveStateless never takes h.mu.)
-//@ func (*StreamableHTTPHandler).serveStateless [C11]
+//@ func (*StreamableHTTPHandler).serveStateless [C11, C12]
+//@   track baseMediaType as media
+//@   track streamableAccepts as accepts
+//@   ensures @post-body-must-be-json disablecontenttypecheck != "1" && calls(media) == 1 && callResult(media, 1, 0) != "application/json" ==> calls(reject) == 1 && callArg(reject, 1, 2) == 415 && calls(serve) == 0 && calls(connect) == 0
+//@   ensures @accept-must-admit-both-response-types calls(accepts) == 1 && !(callResult(accepts, 1, 0) && callResult(accepts, 1, 1)) ==> calls(reject) == 1 && callArg(reject, 1, 2) == 400 && calls(serve) == 0 && calls(connect) == 0
 //@   track http.Error as reject
 //@   track connectStreamable as connect
 //@   track (*StreamableServerTransport).ServeHTTP as serve
